@@ -217,23 +217,23 @@ def gen_type_lemmas(meta):
         for form in ["oo", "or", "ro"]:
             if have(f"{op}_{form}") and have(f"{op}_rr"):
                 L(f"{op}_{form}", reals(A + B), [], [f"{m(op + '_' + form, p, [A, B])} == {m(op + '_rr', p, [A, B])}" for p in outs],
-                  ["C08", "C07"], f"form {form} of {op} equals the borrowed form")
+                  ["C08", "C07", "C03"], f"form {form} of {op} equals the borrowed form")
         if have(f"{op}_assign_oo") and have(f"{op}_rr"):
             L(f"{op}_assign", reals(A + B), [], [f"{m(op + '_assign_oo', p, [A, B])} == {m(op + '_rr', p, [A, B])}" for p in outs],
-              ["C08", "C07"], f"{op}-assign equals the binary operator")
+              ["C08", "C07", "C03"], f"{op}-assign equals the binary operator")
     if have("neg_o") and have("neg_r"):
-        L("neg_o", reals(A), [], [f"{m('neg_o', p, [A])} == {m('neg_r', p, [A])}" for p in outs], ["C08", "C07"], "owned negation")
+        L("neg_o", reals(A), [], [f"{m('neg_o', p, [A])} == {m('neg_r', p, [A])}" for p in outs], ["C08", "C07", "C03"], "owned negation")
     C = G.const("f")
     for op in ["add", "sub", "mul"]:
         for form, nm in [("of", op), ("assign_of", op + "-assign")]:
             mn = f"{op}_{form}"
             if have(mn) and have(f"{op}_rr"):
                 L(mn, reals(A + ["f"]), [], [f"{m(mn, p, [A], ['f'])} == {m(op + '_rr', p, [A, C])}" for p in outs],
-                  ["C08", "C07"], f"{nm} with a scalar equals the dual operation with the scalar lifted to a constant")
+                  ["C08", "C07", "C03"], f"{nm} with a scalar equals the dual operation with the scalar lifted to a constant")
     for mn in ["div_of", "div_assign_of"]:
         if have(mn) and have("div_rr"):
             L(mn, reals(A + ["f"]), ["f != 0real", "f * recip_r(f) == 1real"], [f"{m(mn, p, [A], ['f'])} == {m('div_rr', p, [A, C])}" for p in outs],
-              ["C08", "C07"], "division by a scalar equals the dual quotient with the scalar lifted to a constant")
+              ["C08", "C07", "C03"], "division by a scalar equals the dual quotient with the scalar lifted to a constant")
     if have("inv") and have("recip"):
         L("inv", reals(A), [], [f"{m('inv', p, [A])} == {m('recip', p, [A])}" for p in outs], ["C08"], "inv == recip")
     if have("from"):
